@@ -220,6 +220,21 @@ func censusGlobalWrites(w *World, r *Report) []*Obligation {
 					if g := fromGlobal(x.Map); g != nil {
 						bad = append(bad, fmt.Sprintf("%s updates map %s (%s)", funcDisplayName(fn), g.Name(), posStr(w.Fset, x.Pos())))
 					}
+				case ssa.CallInstruction:
+					// the ADDRESS of a package-level variable (or of a field / element inside it) handed
+					// to a callee: the callee can write the variable (sync/atomic, sync.Map, sync.Once,
+					// a method with pointer receiver). Loads are not followed: a pointer stored in a
+					// global is a value, the object behind it is covered by the store rules above.
+					c := x.Common()
+					args := append([]ssa.Value{}, c.Args...)
+					if c.IsInvoke() {
+						args = append(args, c.Value)
+					}
+					for _, a := range args {
+						if g := addrInGlobal(a); g != nil {
+							bad = append(bad, fmt.Sprintf("%s passes the address of package-level %s to %s (%s)", funcDisplayName(fn), g.Name(), calleeName(c), posStr(w.Fset, x.Pos())))
+						}
+					}
 				}
 			}
 		}
@@ -228,6 +243,27 @@ func censusGlobalWrites(w *World, r *Report) []*Obligation {
 	o := censusObl(r.Prop, r.Prop+"/tree/globals#1", "frame", "", "no lint-reachable function (outside initialisers) stores to a package-level variable or into a map/array held by one", len(bad) == 0, strings.Join(bad, "; "))
 	o.Solver = "frame-checker"
 	return []*Obligation{o}
+}
+
+// addrInGlobal: v is the address of a package-level variable or of a field / array element inside
+// one (no load on the way).
+func addrInGlobal(v ssa.Value) *ssa.Global {
+	for i := 0; i < 6; i++ {
+		switch x := v.(type) {
+		case *ssa.Global:
+			return x
+		case *ssa.FieldAddr:
+			v = x.X
+		case *ssa.IndexAddr:
+			if _, isArr := x.X.Type().Underlying().(*types.Pointer); !isArr {
+				return nil // indexing a slice loads its header first
+			}
+			v = x.X
+		default:
+			return nil
+		}
+	}
+	return nil
 }
 
 // censusSync: no goroutines, channel operations or write locks anywhere in the module outside
